@@ -256,17 +256,31 @@ def split_cases(cases_path, n, wd):
         n = 1
     if n <= 1 or len(starts) < 2 * n:
         return [(cases_path, 0, len(lines))], lines, len(pre)
-    per = (len(starts) + n - 1) // n
+
+    # weight of a case: heavy lines (range sweeps, large frames) count by their size, so that chunks take equal time
+    def weight(l):
+        if l.startswith("sweep "):
+            try:
+                return 1 + int(l.split(" ")[3]) // 2000
+            except Exception:
+                return 1
+        return 1 + len(l) // 4000
+
+    bounds = starts + [len(lines)]
+    cw = [sum(weight(lines[i]) for i in range(bounds[k], bounds[k + 1])) for k in range(len(starts))]
+    total = sum(cw)
     chunks = []
-    for k in range(n):
-        s = starts[k * per] if k * per < len(starts) else None
-        if s is None:
-            break
-        e = starts[(k + 1) * per] if (k + 1) * per < len(starts) else len(lines)
-        p = os.path.join(wd, "chunk%02d.cases" % k)
-        with open(p, "w") as f:
-            f.write("\n".join(pre + lines[s:e]) + "\n")
-        chunks.append((p, s, e))
+    acc = 0
+    k0 = 0
+    for k in range(len(starts)):
+        acc += cw[k]
+        if (acc >= total * (len(chunks) + 1) / n and len(chunks) < n - 1) or k == len(starts) - 1:
+            s, e = starts[k0], bounds[k + 1]
+            p = os.path.join(wd, "chunk%02d.cases" % len(chunks))
+            with open(p, "w") as f:
+                f.write("\n".join(pre + lines[s:e]) + "\n")
+            chunks.append((p, s, e))
+            k0 = k + 1
     return chunks, lines, len(pre)
 
 
